@@ -207,6 +207,7 @@ func init() {
 		wireOneByteEndian(w, wc, r, "C01")
 		wireListEndianUnconditional(w, wc, r, "C01")
 		wireSequenceFrame(w, r, "C01", map[string]bool{"Field": true})
+		inlineObjectKeepsItsPacket(w, r, "C01")
 		nameKeyedSetOverInline(w, r, "C01", func(fn *ssa.Function) bool { return isGeneratorFunc(fn) && recvNamedCore(fn) != "LuaWspGenerator" }, "a generator remembers the packets it has written under their names and consults that set for inline objects too: of two inline objects that share a name (or an inline object named like a declared packet) only the first is emitted, and the members of the other are encoded with its layout")
 		// what an encoder emits must not depend on which targets ran before it: no generator writes into the model they share
 		wireModelFrame(w, r, "C01", frameWire, nil, map[string]bool{"Field": true, "MatchPair": true, "Packet": true}, "a generator rewrites the part of the shared model the encoders are derived from: what the targets generated after it put on the wire depends on which targets ran before")
